@@ -1,7 +1,9 @@
 import sys,glob
 sys.path.insert(0,'/verif')
 from ylib import facts as F, wire as W
-d=sorted(glob.glob('/verif/.cache/facts/*/'), key=lambda p: __import__('os').path.getmtime(p))[-1]
+import check
+d=check.ensure_facts(['default'])
+d=d['default'] if isinstance(d, dict) else d
 yrs,yffi=F.load(d)
 EXTRA={'yrs::any::Any::encode':'Any','yrs::any::Any::decode':'Any','yrs::block::Item::encode':'Item','yrs::slice::ItemSlice::encode':'ItemSlice',
  'yrs::block::ItemContent::encode':'ItemContent','yrs::block::ItemContent::encode_slice':'ItemContent','yrs::block::ItemContent::decode':'ItemContent',
